@@ -1,17 +1,21 @@
 """C18  Data URI and media type helpers preserve what they encode.
 
-MC : DataUriGen  - generator of data URIs (media type list x {;base64, none} x payloads over a small
-                   alphabet) together with a design model of the helper; TLC checks in every state that
-                   the design satisfies the abstract relation DataUriOK (D => A) for five kinds of
-                   registered minifier, that the design is idempotent, and that the TLA+ codecs round-trip.
-     MediatypeGen - generator of media type strings (quotes, backslash, blanks, separators, both cases)
-                   with sanity invariants of the two readings of MediatypeOK.
-GEN: state dumps of both generators (exhaustive within the bound), TLC -simulate walks over all 256
-     byte values to length 48, every byte value 0..255 in three spellings, the repository's test inputs.
-RUN: harness/cmd/c18 calls the real minify.DataURI (no minifier / identity / shrinking / growing stub /
-     real css, json, svg minifier, registered literally, for text/plain, and via patterns),
-     minify.Mediatype, and both again through the CSS (url()) and HTML (src=, type=) minifiers.
-TV : C18Trace evaluates DataUriWhy / MediatypeWhy (spec/DataUri.tla) on every recorded call.
+MC : DataUriGen    - generator of data URIs (media type list x {;base64, none} x payloads over a small alphabet)
+                     x kinds of registered minifier.  Invariants: the design model DataUriDesign.Design (helper as
+                     intended, with the proposed fixes) satisfies the abstract relation DataUriOK (D => A), is
+                     idempotent, the TLA+ codecs round-trip, and the transcription of the pinned code
+                     (DataUriAsIs) violates the relation only on the narrow constructs of the pinned findings.
+     DataUriHdrGen - the same for the header syntax space (token sequences between "data:" and the comma).
+     MediatypeGen  - generator of media type strings (quotes, backslash, blanks, separators, both cases) with the
+                     design models of minify.Mediatype (MtMachine: AsIs index-safe and wrong only on the known
+                     constructs, Fixed correct everywhere) and sanity invariants of MediatypeOK.
+GEN: state dumps of the three generators (exhaustive within the bound), TLC -simulate walks over all 256 byte
+     values to length 48, every byte value 0..255 in several spellings, malformed forms, the repository's tests.
+RUN: harness/cmd/c18 calls the real minify.DataURI (no minifier / identity / shrinking / growing stub / real css,
+     json, svg minifier, registered literally, for text/plain, and via patterns), minify.Mediatype, and both again
+     through the CSS (url()) and HTML (src=, type=) minifiers.
+TV : C18Trace evaluates DataUriWhy / MediatypeWhy (spec/DataUri.tla) on every recorded call (verdict) and compares
+     every call with the as-is transcriptions (drift information).  Cases are streamed in batches.
 """
 import base64
 import json
@@ -741,8 +745,8 @@ def run(ctx):
         rejections_reproduced=st.confirmed,
         pinned_witnesses=len(pinned),
         pinned_still_failing=still,
-        design_drift=dict(st.drift, note='lines on which the design model (DataUriDesign.Design without minifier / MtMachine.AsIs) '
-                                         'predicts other bytes than the code returned; information, never a verdict',
+        design_drift=dict(st.drift, note='lines on which the transcription of the pinned code (DataUriAsIs.AsIsNone for calls without a minifier / '
+                                         'MtMachine.AsIs) predicts other bytes than the code returned; information, never a verdict',
                           samples=st.drift_samples),
     ))
     if len(st.bytevals) != 256:
@@ -754,8 +758,9 @@ def run(ctx):
         'urlchar = RFC 2396 reserved|unreserved|escaped; "&" may additionally be escaped',
         'an opening quote that is never closed is malformed: from there on the media type relation only demands the "only" reading',
         'embedded channels: the URL is recovered from the host output by a purpose-written url() scanner / golang.org/x/net/html',
-        'the design model DataUriDesign.Design describes the helper as intended (with the proposed fixes), MtMachine.AsIs the '
-        'pinned code; TLC proves AsIs violates the relation only on the excluded constructs within the bound',
+        'DataUriDesign.Design / MtMachine.Fixed describe the helpers as intended (with the proposed fixes) and are model-checked '
+        'against the relation; DataUriAsIs / MtMachine.AsIs transcribe the pinned code: TLC proves they violate the relation only '
+        'on the excluded constructs within the bound, and every recorded call is compared with them (design_drift)',
     ]
 
 
@@ -773,9 +778,10 @@ def replay(ctx, obj):
 
 META = dict(
     category='model_checking',
-    text='TLC model-checks a design model of the data URI helper against the abstract RFC 2397 relation DataUriOK over every '
-         'data URI of the generator (media type spellings x base64/percent x payloads over a small alphabet x five kinds of '
-         'registered minifier), and evaluates that relation - RFC 2397 parser, percent- and base64-decoding, media type '
+    text='TLC model-checks design models of both helpers (as intended, and transcriptions of the pinned code) against the abstract '
+         'RFC 2397 relation DataUriOK / MediatypeOK over every data URI of the generators (media type spellings x base64/percent x '
+         'payloads over a small alphabet x five kinds of registered minifier; header token sequences; media type strings over '
+         'quotes/backslash/blanks/case), and evaluates that relation - RFC 2397 parser, percent- and base64-decoding, media type '
          'normalisation, shorter-encoding and never-longer clauses, all in TLA+ - on the recorded result of every real call '
          'of minify.DataURI / minify.Mediatype (directly and through the CSS and HTML minifiers). Exhaustive within the bound, '
          'TLC -simulate walks over all 256 byte values and the repository inputs beyond it.',
